@@ -1904,13 +1904,31 @@ package trzsz
 //@ end
 //@ func isCompressionProfitable
 //@   assigns fpos, elemsof("byte")
-//@   ensures [C08] r1 == nil ==> (forall f int {fpos[f]} :: fpos[f] == old(fpos)[f])
+//@   ensures [C08,C01] r1 == nil ==> (forall f int {fpos[f]} :: fpos[f] == old(fpos)[f])
 //@ end
 //@ func trzszTransfer.isCompressFixed pure
 //@ end
 //@ # ... and so does announcing the compression choice
 //@ func trzszTransfer.sendCompressFlag
-//@   ensures [C08] r1 == nil ==> (forall f int {fpos[f]} :: fpos[f] == old(fpos)[f])
+//@   ensures [C08,C01] r1 == nil ==> (forall f int {fpos[f]} :: fpos[f] == old(fpos)[f])
+//@   # C01: both ends decide compression by the same rule (isCompressFixed, a function of the negotiated
+//@   # configuration and the announced size); where the rule leaves it open the sender decides, announces its
+//@   # choice with a COMP line carrying exactly "true"/"false" for what it returns, and the receiver takes
+//@   # the announced value
+//@   before trzszTransfer.isCompressFixed assert [C01] p0 == result_of("fileReader.getSize", 0, 0)
+//@   ensures [C01] r1 == nil && result_of("trzszTransfer.isCompressFixed", 0, 0) ==> r0 == result_of("trzszTransfer.isCompressFixed", 0, 1)
+//@   before trzszTransfer.sendLine assert [C01] !result_of("trzszTransfer.isCompressFixed", 0, 0) && p0 == "COMP" && \
+//@       p1 == result_of("strconv.FormatBool", 0, 0) && result_of("isCompressionProfitable", 0, 1) == nil
+//@   before strconv.FormatBool assert [C01] p0 == result_of("isCompressionProfitable", 0, 0)
+//@   ensures [C01] r1 == nil && !result_of("trzszTransfer.isCompressFixed", 0, 0) ==> r0 == result_of("isCompressionProfitable", 0, 0)
+//@ end
+//@ func trzszTransfer.recvCompressFlag
+//@   requires t.buffer != nil && tbWF(t.buffer)
+//@   before trzszTransfer.isCompressFixed assert [C01] p0 == size
+//@   ensures [C01] r1 == nil && result_of("trzszTransfer.isCompressFixed", 0, 0) ==> r0 == result_of("trzszTransfer.isCompressFixed", 0, 1)
+//@   before trzszTransfer.recvCheck assert [C01] !result_of("trzszTransfer.isCompressFixed", 0, 0) && p0 == "COMP"
+//@   ensures [C01] r1 == nil && !result_of("trzszTransfer.isCompressFixed", 0, 0) ==> \
+//@       (r0 ==> result_of("trzszTransfer.recvCheck", 0, 0) == "true") && (!r0 ==> result_of("trzszTransfer.recvCheck", 0, 0) == "false")
 //@ end
 
 //@ # C03: the input pump hands every non-empty read to the transfer - the very bytes read, as one chunk -
@@ -1960,6 +1978,13 @@ package trzsz
 //@     invariant [C18] sawPause ==> pause
 //@     invariant t.buffer != nil && tbWF(t.buffer) && t.transferConfig.Protocol == old(t.transferConfig.Protocol)
 //@     invariant [C18] old(t.transferConfig.Protocol) >= 3 ==> idxBefore == pauseIdx
+//@   # C11/C18: the pause counter the retry decision compares against is read afresh before every wait (a
+//@   # stale value would make every later timeout look like "a pause began during this read" - and the
+//@   # timeout would never be reported)
+//@   ghostvar idxFresh bool = false
+//@   after atomic.Uint32.Load#0 set idxFresh = true
+//@   after trzszTransfer.recvLine set idxFresh = false
+//@   before trzszTransfer.recvLine assert [C18,C11] old(t.transferConfig.Protocol) >= 3 ==> idxFresh
 //@ end
 
 //@ # C06: what the servers print is the trigger the detector's grammar expects: marker, mode letter,
@@ -2000,6 +2025,10 @@ package trzsz
 //@   requires transfer.buffer != nil && tbWF(transfer.buffer)
 //@   before trzszTransfer.sendConfig assert [C14] action.Confirm && (args.baseArgs.Binary ==> action.SupportBinary) && \
 //@       (args.baseArgs.Directory ==> action.SupportDirectory) && (args.baseArgs.Fork ==> action.SupportFork)
+//@   # C01: what the user is shown is the list the receive loop returned, for the path it was given
+//@   before formatSavedFiles assert [C01] same(p0, result_of("trzszTransfer.recvFiles", 0, 0)) && p1 == args.Path && \
+//@       result_of("trzszTransfer.recvFiles", 0, 1) == nil && result_of("trzszTransfer.recvExit", 0, 1) == nil
+//@   before trzszTransfer.recvFiles assert [C01] p0 == args.Path
 //@ end
 //@ func sendFiles
 //@   requires transfer.buffer != nil && tbWF(transfer.buffer)
@@ -2161,6 +2190,12 @@ package trzsz
 //@   loop 1
 //@     invariant [C02] opened == verified
 //@   ensures [C02] r1 == nil ==> opened == verified
+//@   # C01: the names reported are the names actually used - each name entered in the list is the local
+//@   # name the per-file step returned (once per name), and the list returned is that list
+//@   ghostvar lname string
+//@   after trzszTransfer.recvFileNameV3 set lname = r1
+//@   after trzszTransfer.recvFileName set lname = r1
+//@   before containsString assert [C01] same(p0, localNames) && same(p1, lname)
 //@ end
 //@ func trzszTransfer.sendFiles
 //@   ghostvar opened int = 0
@@ -2182,6 +2217,11 @@ package trzsz
 //@   loop 1
 //@     invariant [C02] opened == verified
 //@   ensures [C02] r1 == nil ==> opened == verified
+//@   # C01: the names reported by the sender are the remote names the per-file step returned
+//@   ghostvar rname string
+//@   after trzszTransfer.sendFileNameV3 set rname = r1
+//@   after trzszTransfer.sendFileName set rname = r1
+//@   before containsString assert [C01] same(p0, remoteNames) && same(p1, rname)
 //@ end
 
 //@ # The pipelined data phase ends in success only through the success signal of its last stage (which
@@ -2458,4 +2498,46 @@ package trzsz
 //@   ensures [C11] c11failed ==> c11told
 //@   loop 1
 //@     invariant [C11] !c11failed
+//@ end
+
+// ===========================================================================
+// C01  end-to-end fidelity  (sequential kernel: the echo checks and agreements the exchange rests on;
+//      see also sendCompressFlag / recvCompressFlag, recvFiles / sendFiles above)
+// ===========================================================================
+
+//@ # The count and each size are announced, echoed and compared: the sender goes on only if the peer echoed the
+//@ # very number it announced; the receiver echoes - and returns - the very number it received.
+//@ func trzszTransfer.sendFileNum
+//@   requires t.buffer != nil && tbWF(t.buffer)
+//@   before trzszTransfer.sendInteger assert [C01] p0 == "NUM" && p1 == num
+//@   before trzszTransfer.checkInteger assert [C01] p0 == num && result_of("trzszTransfer.sendInteger", 0, 0) == nil
+//@   ensures [C01] r0 == nil ==> result_of("trzszTransfer.checkInteger", 0, 0) == nil
+//@ end
+//@ func trzszTransfer.sendFileSize
+//@   requires t.buffer != nil && tbWF(t.buffer)
+//@   before trzszTransfer.sendInteger assert [C01] p0 == "SIZE" && p1 == size
+//@   before trzszTransfer.checkInteger assert [C01] p0 == size && result_of("trzszTransfer.sendInteger", 0, 0) == nil
+//@   ensures [C01] r0 == nil ==> result_of("trzszTransfer.checkInteger", 0, 0) == nil
+//@ end
+//@ func trzszTransfer.recvFileNum
+//@   requires t.buffer != nil && tbWF(t.buffer)
+//@   before trzszTransfer.recvInteger assert [C01] p0 == "NUM"
+//@   before trzszTransfer.sendInteger assert [C01] p0 == "SUCC" && p1 == result_of("trzszTransfer.recvInteger", 0, 0) && \
+//@       result_of("trzszTransfer.recvInteger", 0, 1) == nil
+//@   ensures [C01] r1 == nil ==> r0 == result_of("trzszTransfer.recvInteger", 0, 0) && result_of("trzszTransfer.sendInteger", 0, 0) == nil
+//@ end
+//@ func trzszTransfer.recvFileSize
+//@   requires t.buffer != nil && tbWF(t.buffer)
+//@   before trzszTransfer.recvInteger assert [C01] p0 == "SIZE"
+//@   before trzszTransfer.sendInteger assert [C01] p0 == "SUCC" && p1 == result_of("trzszTransfer.recvInteger", 0, 0) && \
+//@       result_of("trzszTransfer.recvInteger", 0, 1) == nil
+//@   ensures [C01] r1 == nil ==> r0 == result_of("trzszTransfer.recvInteger", 0, 0) && result_of("trzszTransfer.sendInteger", 0, 0) == nil
+//@ end
+//@ # The name announced is the source's (its JSON description in directory mode), and the name reported back
+//@ # to the caller is the one the receiver answered with.
+//@ func trzszTransfer.sendFileName
+//@   requires t.buffer != nil && tbWF(t.buffer)
+//@   before trzszTransfer.sendString assert [C01] p0 == "NAME" && \
+//@       same(p1, ite(old(t.transferConfig.Directory), result_of("sourceFile.marshalSourceFile", 0, 0), result_of("sourceFile.getFileName", 0, 0)))
+//@   ensures [C01] r2 == nil ==> same(r1, result_of("trzszTransfer.recvString", 0, 0)) && result_of("trzszTransfer.recvString", 0, 1) == nil
 //@ end
